@@ -122,6 +122,19 @@ theorem C02_raw_command_case_sensitive_differs :
     rawHasSetTagCaseSensitive "modify column c set tag t = 'v'".toList = false ∧
     rawHasSetTagCaseSensitive "MODIFY COLUMN C SET TAG T = 'V'".toList = true := by decide
 
+/-- **Identifiers compared inside one statement** (a select alias used in JOIN … ON): the lookup is by folded name, so
+    every spelling of the reference — any letter case, or the quoted upper-case form — finds the same alias. -/
+theorem C02_alias_lookup_invariant (aliases : List Ident) (a b : Ident) (h : a.norm = b.norm) :
+    aliasFind aliases a = aliasFind aliases b := by
+  simp [aliasFind, h]
+
+/-- regression witness of the repaired defect `C02/join-alias-quoted`: a lookup by identifier node does not find the alias
+    `"SID"` for the reference `sid`, although both name the same column -/
+theorem C02_old_alias_lookup_by_node :
+    (⟨"SID".toList, true⟩ : Ident).norm = (⟨"sid".toList, false⟩ : Ident).norm ∧
+    aliasFindByNode [⟨"SID".toList, true⟩] ⟨"sid".toList, false⟩ = none ∧
+    aliasFind [⟨"SID".toList, true⟩] ⟨"sid".toList, false⟩ = some ⟨"SID".toList, true⟩ := by decide
+
 /-! non-vacuity -/
 def stmtA : Node := .node 1 [.kwFolded "schema".toList, .node 2 [.ident ⟨"db1".toList, false⟩, .ident ⟨"My S".toList, true⟩], .lit "x".toList]
 def stmtB : Node := .node 1 [.kwFolded "SCHEMA".toList, .node 2 [.ident ⟨"Db1".toList, false⟩, .ident ⟨"My S".toList, true⟩], .lit "x".toList]
